@@ -26,6 +26,35 @@ def handleCase (mode : String) (id : Nat) (hdr body : List Sexp) : String :=
       if o1 == want && o2 == want && seen == expSeen then s!"R {id} CORR=ok SPEC=ok SPECM=ok | "
       else s!"R {id} CORR=diff SPEC=fail:outside-completion-{o1}-{o2}-notified-{seen.length}-of-{expSeen.length} SPECM=ok | expected outcome {want} twice and notifications {Sexp.list expSeen}, got {Sexp.list seen}"
     | _, _ => s!"R {id} CORR=diff SPEC=ok SPECM=ok | unparsable suspended case"
+  | "reflush" =>
+    -- flush bodies that synchronously call asynq code creating an item of their own kind: batch q's body calls into
+    -- batch q+1 (a FRESH batch), to depth d: events  before-0 body-0 before-1 body-1 ... after-1 after-0, each batch once
+    match hdr, body with
+    | [_, d], [.list [.atom "result", .atom out, clean, .list evs]] =>
+      let depth := d.nat?.getD 0
+      let down := (List.range (depth + 1)).flatMap fun q => [Sexp.atom s!"before-{q}", Sexp.atom s!"body-{q}"]
+      let up := ((List.range (depth + 1)).reverse).map fun q => Sexp.atom s!"after-{q}"
+      if out == "ok" && clean.nat? == some 1 && evs == down ++ up then s!"R {id} CORR=ok SPEC=ok SPECM=ok | "
+      else s!"R {id} CORR=diff SPEC=fail:reentrant-flush-{out}-events-{if evs == down ++ up then "ok" else "wrong"} SPECM=ok | expected {Sexp.list (down ++ up)}, got {Sexp.list evs}"
+    | _, _ => s!"R {id} CORR=diff SPEC=ok SPECM=ok | unparsable reflush case"
+  | "overlap" =>
+    -- overlapping (not nested) with-blocks a and b (and c nested in b when extra): Ra Rb Pa [Rc] | suspension: [Pc] Pb |
+    -- flush | [Rb Rc] / Rb | exit [Pc] Pb
+    match hdr, body with
+    | [e], [.list [.atom "result", .atom out, .list evs]] =>
+      let a := fun (s : String) => Sexp.atom s
+      let expected := if e.nat? == some 1
+        then [a "Ra", a "Rb", a "Pa", a "Rc", a "Pc", a "Pb", a "flush", a "Rb", a "Rc", a "Pc", a "Pb"]
+        else [a "Ra", a "Rb", a "Pa", a "Pb", a "flush", a "Rb", a "Pb"]
+      if out == "ok" && evs == expected then s!"R {id} CORR=ok SPEC=ok SPECM=ok | "
+      else s!"R {id} CORR=diff SPEC=fail:overlapping-contexts-{out} SPECM=ok | expected {Sexp.list expected}, got {Sexp.list evs}"
+    | _, _ => s!"R {id} CORR=diff SPEC=ok SPECM=ok | unparsable overlap case"
+  | "resetbetween" =>
+    match body with
+    | [.list [.atom "result", .atom out, clean]] =>
+      if out == "ok" && clean.nat? == some 1 then s!"R {id} CORR=ok SPEC=ok SPECM=ok | "
+      else s!"R {id} CORR=diff SPEC=fail:active-task-after-scheduler-reset-{out}-clean{clean} SPECM=ok | "
+    | _ => s!"R {id} CORR=diff SPEC=ok SPECM=ok | unparsable resetbetween case"
   | "cancelfam" =>
     -- a batch with blocked tasks is cancelled by a sibling: it is never flushed (events: only batch B's
     -- before/body/after, exactly once, in that order), the waiters get the cancellation error, the scheduler is clean
